@@ -23,7 +23,10 @@ from .. import common as cm
 from .. import primlib as pl
 
 PID = "C10"
-PROOF_FILES = ["theories/Props/C10.v", "theories/Proofs/DistPrimFeasible.v", "theories/Checker/Prim.v"]
+PROOF_FILES = ["theories/Props/C10.v", "theories/Proofs/DistBase.v", "theories/Proofs/DistPoint.v",
+               "theories/Proofs/DistTriangle.v", "theories/Proofs/DistRect.v", "theories/Proofs/DistRound.v",
+               "theories/Proofs/DistLine.v", "theories/Proofs/DistPlane.v", "theories/Proofs/DistComb.v",
+               "theories/Checker/Prim.v"]
 TOL_ON = 1e-9
 TOL_CONS = 1e-6
 
@@ -221,6 +224,26 @@ def have_coq_checker():
     return (cm.COQ / "theories" / "Checker" / "Prim.vo").exists()
 
 
+def coq_checker_planned():
+    """the checker source exists, so its .vo must have been built"""
+    return (cm.COQ / "theories" / "Checker" / "Prim.v").exists()
+
+
+def theorem_coverage(R, pid):
+    """which of the 34 functions have a universally quantified theorem in Props/<pid>.v
+    (theorem named <pid>_<function>[_suffix]); the rest is judged per generated input only"""
+    names = [t["name"] for t in R.cov.get("theorems", [])]
+    have = {}
+    for fn in sorted(pl.FUNCS, key=len, reverse=True):
+        mine = [n for n in names if n == f"{pid}_{fn}" or n.startswith(f"{pid}_{fn}_")]
+        # a longer function name that has this one as a prefix owns its theorems
+        mine = [n for n in mine if not any(n in v for v in have.values())]
+        if mine:
+            have[fn] = mine
+    R.cov["universal_theorems"] = {fn: have[fn] for fn in pl.FUNCS if fn in have}
+    R.cov["judged_per_input_only"] = [fn for fn in pl.FUNCS if fn not in have]
+
+
 # ----------------------------------------------------------------------------- main
 def load_cases(replay, rng, tier):
     cases = []
@@ -245,13 +268,17 @@ def run(tier, seed, replay=None):
         "offsets from {1/4,1/2,1,2,4}) / touch (a special point of B moved onto a special point of A) / same (shared reference "
         "point and frame, identical primitives) / rotlat (lattice placement moved by a random rigid motion); distinct by canonical "
         "hash of the input; non-trivial = the call returned and the (function, stream, d==0) signature is counted per case")
+    coqchk = coq_checker_planned()
     R.assumptions += [
         "theorems are about the Gallina model Model/DistPrim.v run in exact real arithmetic; float rounding is measured, not proved",
-        "the on-primitive/consistency verdict for each generated input is a consequence of Checker/Prim.v soundness theorems "
-        "(vm_compute on exact rationals); for the circle the exact Python fractions oracle primlib.dist2_upper is used (no rational "
-        "points on a general circle) -- labelled python-exact-oracle",
-        "universality over inputs of the 34 functions comes from generation (domain P streams), not from a theorem, for the functions "
-        "that are not modelled (see coverage.modelled / coverage.checker_only)",
+        ("the on-primitive/consistency verdict for each generated input is a consequence of Checker/Prim.v soundness theorems "
+         "(vm_compute on exact rationals); for the circle the exact Python fractions oracle primlib.dist2_upper is used (no rational "
+         "points on a general circle) -- labelled python-exact-oracle") if coqchk else
+        ("the on-primitive/consistency verdict for each generated input is decided by the exact Python fractions oracle "
+         "(primlib.witness/member/dist2_upper: an explicit member point of the primitive, verified exactly, within tol of the returned "
+         "point) -- labelled python-exact-oracle; no Coq-proven checker is involved in the per-input verdicts yet"),
+        "universality over inputs comes from a theorem only for the functions listed in coverage.universal_theorems; for the others "
+        "(coverage.judged_per_input_only) it comes from generation (domain P streams)",
         "harness/compat.py import shim; numpy/numba/CPython",
     ]
     have_props = (cm.COQ / "theories" / "Props" / "C10.v").exists()
@@ -259,6 +286,7 @@ def run(tier, seed, replay=None):
         R.check_proofs([f for f in PROOF_FILES if (cm.COQ / f).exists()])
     else:
         R.proof_broken.append("Props/C10.v missing")
+    theorem_coverage(R, PID)
 
     cases = load_cases(replay, R.rng, tier)
     results, names = run_impl_cases(PID, cases)
@@ -326,12 +354,13 @@ def run(tier, seed, replay=None):
                         bad.append((cases[i], results[i], [f"Coq checker c10_check rejects the result: {o}"]))
         except RuntimeError as e:
             R.corr_broken.append(f"checker evaluation failed: {str(e)[:400]}")
-    else:
+    elif coq_checker_planned():
         R.corr_broken.append("Checker/Prim.vo not built")
     R.cov["judged_by_coq_checker"] = n_coq
     R.cov["judged_by_python_exact_oracle_only"] = n_pyonly + (0 if have_coq_checker() else len(cases))
     R.cov["oracle_labels"] = {"circle functions (point/line/line_segment_to_circle)": "python-exact-oracle (fractions)",
-                              "all other kinds": "coq-proven-checker (Checker/Prim.v) + python fractions cross-check"}
+                              "all other kinds": ("coq-proven-checker (Checker/Prim.v) + python fractions cross-check" if have_coq_checker()
+                                                  else "python-exact-oracle (fractions); decides alone")}
 
     # ---- model correspondence
     c10corr.correspondence(R, PID, cases, results, tier)
